@@ -1,3 +1,3 @@
 SPECIFICATION Spec
-INVARIANTS Inverse
+INVARIANTS Inverse CaseLaws FlatAssoc
 CHECK_DEADLOCK FALSE
